@@ -143,7 +143,9 @@ def run(repo: Repo, rep: Report, tier: str) -> None:
             rep.violation("R13.3", sub, f"{tm.fq}|no-raise|{cfg.describe_path(w)}", f"a mock method can be emitted without the raise ({cfg.describe_path(w)})", tm.loc())
     # nothing executable is emitted before the raise except the docstring
     # ---------------------------------------------------------------- R13.5 nature decision
-    ev = repo.func("visit.endpoint.endpoint_visitor:EndpointVisitor.generate_endpoint_protocol")
+    from sa.flatten import flatten as _fl13
+
+    ev = _fl13(repo.func("visit.endpoint.endpoint_visitor:EndpointVisitor.generate_endpoint_protocol"))
     IR_ATTRS = {"responses", "stream", "is_streaming", "content", "return_type", "stream_format"}
     for fn in (ev, tm):
         FL = Locals(fn.node)
